@@ -171,3 +171,20 @@ PROPS["C21"] = dict(
          "analysis crate; (b) every parse error of a file is forwarded as a diagnostic with its own range and message, and "
          "codes/severities come from the single constructor.",
     note="Range-inside-document, start<=end for arbitrary checkers and duplicates are not decided. Trusted: rustc MIR, emmyfacts, PyYAML.")
+
+PROPS["C03"] = dict(
+    module="c03", func="run", level="other", crates=["emmylua_parser"],
+    technique="table evaluation from MIR (feature sets per language level, keyword strings) compared with reference tables",
+    text="Decides the table-agreement clause: the per-level feature sets (what syntax each Lua version accepts) and the lexer's "
+         "reserved-word table equal the reference manuals' tables; a dropped or misplaced set.add(..) or a misspelt keyword is reported.",
+    note="Language equivalence with reference Lua (literals, escapes, statement grammar) needs a reference implementation as oracle "
+         "and is not decided. The reference tables in rules/c03.py are part of the trusted base.")
+
+PROPS["C04"] = dict(
+    module="c04", func="run", level="other", crates=["emmylua_parser", "emmylua_code_analysis", "emmylua_formatter", "emmylua_ls"],
+    technique="who-may-call + call-graph reachability with static-reference scan + argument provenance",
+    text="Decides that LuaParser::parse is a function of its arguments plus one trusted interning cache: the cache is only "
+         "constructed and handed to rowan's builder, no code reachable from the parser references mutable/interior-mutable/"
+         "thread-local statics, and the Vfs feeds the parser only the new text and configuration.",
+    note="Sufficient-condition argument: a new channel is reported even if it were transparent. Trusted: rowan's cache transparency, "
+         "external crates' global state (rust-i18n, log) is configuration.")
